@@ -97,7 +97,7 @@ static CaseResult run_case(Tape &t, const dif::CaseOpt &opt = dif::CaseOpt())
 		int src = nhon + (int)t.below((uint32_t)(nsac + nhost));
 		scn::ScriptClient &sc = E.S(src).sc;
 		std::string what;
-		switch (t.pick({4, 6, 6, 5, 3, 2, 2, 2})) {
+		switch (t.pick({4, 6, 6, 5, 3, 2, 2, 2, 3, 2})) {
 		case 0: { sim::Datagram dg; dg.src = sc.addr; dg.dst = sc.server; dg.data = mal::raw_bytes(t, ms); sim::W.send(dg); what = fmt("raw bytes %zuB", dg.data.size()); break; }
 		case 1: { static const char CMD[] = "vVlLiIzZsSoOyYrRnNpP0123456789abcdefABCDEFgxX-_"; char cmd = t.chance(2, 3) ? CMD[t.below(sizeof CMD - 1)] : 0;
 			sim::Datagram dg; dg.src = sc.addr; dg.dst = sc.server; dg.data = mal::hostile_query(t, c.domain, cmd, ms); sim::W.send(dg); what = fmt("malformed DNS %zuB cmd=%c", dg.data.size(), cmd ? cmd : '-'); break; }
@@ -154,6 +154,35 @@ static CaseResult run_case(Tape &t, const dif::CaseOpt &opt = dif::CaseOpt())
 			Bytes part(full.begin(), full.begin() + cut), rest(full.begin() + cut, full.end());
 			{ dif::ScopedResidue sr(opt, rest, stale_copy); own.send_raw(part); sim::W.run_for(3000); }
 			what = fmt("raw frame (command %d) of session user %d cut after %zu bytes%s", fc, own.userid, cut, stale_copy ? ", rest still in the buffer" : ""); ms.hit("rawframe:cut-short");
+			break;
+		}
+		case 8: {   // a logged-in session polls (1..4 pings, acknowledging what it got): packets queued for it move through the
+			// server's per-session queue while more keep arriving (the ring of four wraps around)
+			std::vector<int> up; for (size_t i = 0; i < hs.size(); i++) if (hs[i].up && !hs[i].raw) up.push_back((int)i);
+			if (up.empty()) break;
+			HonestS &h = hs[up[t.below((uint32_t)up.size())]];
+			int n = 1 + (int)t.below(4);
+			for (int i = 0; i < n; i++) { E.S(h.src).sc.send_ping(); sim::W.run_for(3000); honest_absorb_c05(E, h); }
+			h.t_last = sim::W.now;
+			what = fmt("session user %d polls %d times", h.user, n); ms.hit("session-polls");
+			break;
+		}
+		case 9: {   // queue churn: bursts of small packets for one session's tunnel address alternate with a few polls of that session,
+			// so that its queue of four fills, drains partly and wraps (the server only reads its tun device while some other
+			// session could take data, hence the requirement of a second session)
+			std::vector<int> up; for (size_t i = 0; i < hs.size(); i++) if (hs[i].up && !hs[i].raw) up.push_back((int)i);
+			int nlive = 0; for (auto &o : hs) if (o.up) nlive++;
+			if (up.empty() || nlive < 2) break;
+			HonestS &h = hs[up[t.below((uint32_t)up.size())]];
+			int rounds = 2 + (int)t.below(3), total = 0;
+			for (int r2 = 0; r2 < rounds; r2++) {
+				int burst = 2 + (int)t.below(4);
+				for (int b = 0; b < burst; b++) { sim::W.offer_tun(E.s->srv, scn::tun_packet(h.tun_ip, E.s->server_tun_ip(), t.bytes_of(8 + t.below(60)), (uint16_t)(700 + total++))); sim::W.run_for(500); }
+				int polls = 1 + (int)t.below(3);
+				for (int i = 0; i < polls; i++) { E.S(h.src).sc.send_ping(); sim::W.run_for(3000); honest_absorb_c05(E, h); }
+			}
+			h.t_last = sim::W.now;
+			what = fmt("queue churn for session user %d: %d packets in %d bursts with polls in between", h.user, total, rounds); ms.hit("queue-churn");
 			break;
 		}
 		default: {  // tunnel command letter followed by arbitrary bytes
